@@ -169,6 +169,46 @@ claim(
     "none beyond the class model.",
     "DESIGN.md section 3, C17",
 )
-for _p in ["C02", "C03", "C05"]:
-    na(_p, "routing evaluator (finite-domain abstract interpreter of fill/_numpy, DESIGN 2.4) still under construction in this "
-           "session; not claimed until it runs clean on the unchanged tree")
+claim(
+    "C02",
+    "finite-domain abstract interpretation of fill over order-type regions x weight classes (exhaustive), rational-function "
+    "normal forms for the accumulator updates, decision tables for min/max",
+    "Decides for all 19 fill(): no effect for NaN/non-positive weights; for every container the routing table region -> "
+    "{(child slot, weight)} over ALL order-type regions of the datum (NaN, -inf, each critical point, each open interval, +inf; "
+    "1-3 thresholds/centres quick, 0-5 thorough) equals the specified table; the generic-case accumulator updates equal the "
+    "specified functions as rational functions; Minimize/Maximize follow the min/max-ignoring-NaN decision table; Deviate.fill "
+    "handles the mean exactly like Average.fill. Every statement of every fill must be reached by some scenario. NOT decided: "
+    "that the opaque in-range index arithmetic picks the numerically right bucket for every float; floating-point summation "
+    "order; what user functions return.",
+    "Exact abstraction for comparison-only code (two data in one region take the same path). Library summaries are listed in "
+    "the evidence file's assumptions. An unsupported construct is ANALYSIS-ERROR, never a pass.",
+    "DESIGN.md sections 2.4 and 3, C02",
+)
+claim(
+    "C03",
+    "row-wise abstract interpretation of _numpy (generic row: region x weight class; both branches of every data-dependent "
+    "fast path) compared with the abstract interpretation of fill; alias/taint tracking of input arrays; rational-function "
+    "comparison of the batch-merge formulas",
+    "Decides for all 19 _numpy, for every region of q[i] (NaN, +-inf, every edge/midpoint/threshold included), weight class "
+    "{0,1,>0}, scalar and array weights, Count and non-Count children, known/unknown shape, and every fast/slow path: the same "
+    "{(child slot, weight)} as fill up to zero weights (containers) / the same influence of the row on the accumulators "
+    "(leaves); entries grows by the unmasked caller weight; no array that may alias the caller's inputs is written (with an "
+    "embedded positive control); same slots visited; Average/Deviate batch merge == __add__ as rational functions. One known "
+    "finding (Sum masks NaN rows). NOT decided: equality of floating-point reductions, key creation order, negative weights.",
+    "numpy/bisect library summaries (np.histogram edge conventions, np.unique partition, int64 cast of NaN/inf) are stated "
+    "assumptions; every numpy operation used must be in the closed vocabulary (else ANALYSIS-ERROR).",
+    "DESIGN.md sections 2.4 and 3, C03",
+)
+claim(
+    "C05",
+    "bookkeeping rules evaluated on the routing tables of the abstract interpreter (fill and _numpy, all regions, all paths) + "
+    "homogeneity-derived scaling table",
+    "Decides: partition nodes route every region to exactly one slot and Stack fills a prefix including level 0, in fill and "
+    "in every path of _numpy; on every path with positive weight entries is incremented exactly once by the caller's weight "
+    "and the partition child / collection children / Fraction.denominator / Bag cell receive that same weight; a fixed-length "
+    "child sequence is never indexed by an unclamped float-derived index (scalar and vectorised); __mul__ implements the "
+    "scaling table derived from fill. NOT decided: that floats adjacent to an edge land in the numerically right bin, and "
+    "sums up to rounding; invariants through + and += are the structural clauses of C01/C07.",
+    "Same assumptions as C02/C03.",
+    "DESIGN.md sections 2.4 and 3, C05",
+)
